@@ -92,4 +92,106 @@ example : let s : Nat → Outcome := fun i => if i < 2 then .resp 503 else .resp
 
 example : retry (fun _ => Outcome.errResp 502) 1 = ([.call 0, .sleep, .call 1], ⟨some 1, some 1⟩) := by decide
 
+/-! ## the request's body (the branch added to retry.go by 371dec3): every body kind, a failing `GetBody` included -/
+
+/-- the whole loop (with the body branch of 371dec3) equals its specification for every n, script and body kind -/
+theorem C20_body_model_eq_spec (script : Nat → Outcome) (n : Nat) (b : ReqBody) :
+    retryB script (n : Int) b = specB script n b := by
+  have hn : ¬ ((n : Int) < 0) := by omega
+  simp only [retryB, hn, ↓reduceIte, Int.toNat_natCast, specB]
+  cases hf : b.failAt with
+  | none =>
+    rw [loopB_none]
+    have := C20_model_eq_spec script n
+    simp only [retry, hn, ↓reduceIte, Int.toNat_natCast] at this
+    exact this
+  | some k =>
+    dsimp only
+    by_cases hk : 0 < k ∧ k ≤ n
+    · rw [if_pos hk, loopB_closed script k (n + 1) 0 none hk.1 (Nat.zero_le _) (by omega)]
+      simp only [Nat.sub_zero]
+      cases firstAcceptable script k 0 with
+      | some j => simp [specTrace_eq]
+      | none =>
+        have : k ≠ 0 := by omega
+        simp [specTrace_eq, this]
+    · rw [if_neg hk, loopB_unreached script k (n + 1) 0 none (by omega)]
+      have := C20_model_eq_spec script n
+      simp only [retry, hn, ↓reduceIte, Int.toNat_natCast] at this
+      exact this
+
+/-- the property's statement holds whatever the request carries, as long as its body can be sent again (no body,
+    a stream the middleware cannot rewind, a replayable body whose `GetBody` succeeds) -/
+theorem C20_body_irrelevant (script : Nat → Outcome) (n : Nat) (b : ReqBody) (h : b.failAt = none) :
+    retryB script n b = spec script n := by
+  rw [C20_body_model_eq_spec, specB, h]
+
+/-- never more than n+1 attempts, for every body kind, a failing `GetBody` included -/
+theorem C20_bound_any_body (script : Nat → Outcome) (n : Nat) (b : ReqBody) :
+    calls (retryB script n b).1 ≤ n + 1 := by
+  rw [C20_body_model_eq_spec, specB]
+  have hs : calls (spec script n).1 ≤ n + 1 := by rw [← C20_model_eq_spec]; exact C20_bound script n
+  cases hf : b.failAt with
+  | none => exact hs
+  | some k =>
+    dsimp only
+    by_cases hk : 0 < k ∧ k ≤ n
+    · rw [if_pos hk]
+      cases h : firstAcceptable script k 0 with
+      | some j =>
+        have := firstAcceptable_some h
+        simp only [specTrace_eq, calls_traceFrom]; omega
+      | none =>
+        have : calls (specTrace k ++ [Event.sleep]) = k := by
+          have := calls_traceFrom k 0
+          unfold calls at *
+          simp [specTrace_eq, this]
+        dsimp only
+        rw [this]; omega
+    · rw [if_neg hk]; exact hs
+
+/-- `GetBody` fails before attempt k (1 ≤ k ≤ n) and no earlier attempt was acceptable: exactly k calls, one more
+    wait, and the outcome of attempt k-1 is returned -/
+theorem C20_getbody_fail (script : Nat → Outcome) (n k : Nat) (hk : 0 < k) (hkn : k ≤ n)
+    (hnone : ∀ j, j < k → (script j).acceptable = false) :
+    retryB script n (.replay (some k)) = (specTrace k ++ [Event.sleep], retOf (some (k - 1, script (k - 1)))) := by
+  rw [C20_body_model_eq_spec, specB]
+  have : firstAcceptable script k 0 = none := by
+    cases h : firstAcceptable script k 0 with
+    | none => rfl
+    | some i =>
+      have := firstAcceptable_some h
+      have := hnone i (by omega)
+      simp_all
+  simp [ReqBody.failAt, hk, hkn, this]
+
+/-- a request whose body can be replayed is never handed on with a drained body: attempt 0 gets the request itself,
+    every later attempt a clone with a fresh reader -/
+theorem C20_replay_views (f : Option Nat) (t : List Event) :
+    ∀ v ∈ views (.replay f) t, v = View.origFull ∨ v = View.cloneFull := by
+  intro v hv
+  simp only [views, List.mem_filterMap] at hv
+  obtain ⟨e, _, he⟩ := hv
+  cases e with
+  | sleep => simp at he
+  | call i =>
+    simp only [Option.some.injEq, view] at he
+    subst he
+    by_cases h : i = 0 <;> simp [h]
+
+/-- a request without a body is sent as it is on every attempt -/
+theorem C20_nobody_views (t : List Event) : ∀ v ∈ views .none t, v = View.origNoBody := by
+  intro v hv
+  simp only [views, List.mem_filterMap] at hv
+  obtain ⟨e, _, he⟩ := hv
+  cases e with
+  | sleep => simp at he
+  | call i => simp only [Option.some.injEq, view] at he; exact he.symm
+
+example : retryB (fun _ => Outcome.resp 503) 3 (.replay (some 2)) =
+    ([.call 0, .sleep, .call 1, .sleep], ⟨some 1, none⟩) := by decide
+
+example : (0 < 2 ∧ 2 ≤ 3) ∧ ∀ j, j < 2 → ((fun _ => Outcome.resp 503) j).acceptable = false := by
+  exact ⟨by omega, fun _ _ => rfl⟩
+
 end ShootVerif.Retry
